@@ -496,6 +496,14 @@ func VerifyRangeProof(rootHash common.Hash, firstKey []byte, lastKey []byte, key
 			return false, errors.New("range contains deletion")
 		}
 	}
+	// With an edge proof, every claimed key must lie inside the proven interval:
+	// keys outside it fall under unresolved parts of the edge paths, where a
+	// failed insertion is not noticed.
+	if proof != nil && len(keys) > 0 {
+		if bytes.Compare(keys[0], firstKey) < 0 || bytes.Compare(keys[len(keys)-1], lastKey) > 0 {
+			return false, errors.New("range contains keys outside of the edge keys")
+		}
+	}
 	// Special case, there is no edge proof at all. The given range is expected
 	// to be the whole leaf-set in the trie.
 	if proof == nil {
